@@ -173,7 +173,16 @@ func execRoutes(e *env, op *Op, out *Outcome) {
 		w1, w2 := e.newWriter(nil), e.newWriter(nil)
 		sw := &stringWriter{simWriter: e.newWriter(nil)}
 		var dsb redact.StringBuilder
+		// a ManualBuffer in raw (pre-redactable) mode whose content ends in an
+		// envelope: what is written to it is appended verbatim
+		var dmb redact.ManualBuffer
+		dmb.SetMode(2)
+		const mbPrior = "user " + mStart + "bob" + mEnd
+		dmb.WriteString(mbPrior)
 		dests := []dest{
+			{"*ManualBuffer(raw mode)", &dmb, func() (string, int) {
+				return strings.TrimPrefix(string(dmb.RedactableString()), mbPrior), -1
+			}},
 			{"bytes.Buffer", &bb, func() (string, int) { return bb.String(), -1 }},
 			{"io.MultiWriter", io.MultiWriter(w1, w2), func() (string, int) {
 				if strings.Join(w1.seen, "") != strings.Join(w2.seen, "") {
